@@ -1,7 +1,8 @@
 (* C09 — model of the split synchronisation of a registering plugin.
 
    Sender   pkg/adaptation/plugin.go   synchronize, recalcObjsPerSyncMsg
-   Receiver pkg/stub/stub.go           Synchronize, collectSync, deliverSync
+   Receiver pkg/stub/stub.go           Synchronize, collectSync, deliverSync; close (the
+                                       boundary between two connections of one stub)
    Activation bookkeeping pkg/adaptation/adaptation.go
                                        acceptPluginConnections, startPlugins/syncPlugins
 
@@ -247,6 +248,40 @@ End Stub.
 
 Arguments ss_acc {A B}. Arguments ss_calls {A B}. Arguments Build_stub_state {A B}.
 Arguments stub_init {A B}. Arguments stub_append {A B}. Arguments stub_sync {A B U}.
+
+(* ------------------------------------------------------------------ *)
+(** * Receiver across connections: stub.close
+
+    One stub.Stub value can be started again after its connection was lost or after
+    Stop (plugins do so from their onClose handler).  The chunks collected so far,
+    stub.syncReq, are a field of that value and so outlive the connection unless
+    close() discards them.  close() is what both connClosed (connection lost) and
+    Stop run, and Start refuses to run before it ("stub already started"), so exactly
+    one close lies between the messages of two connections.
+
+      func (stub *stub) close() { ...; stub.started = false; stub.conn = nil; stub.syncReq = nil }
+
+    [resets] = the last assignment is there (Model/SyncConsts.v: close_resets_sync,
+    regenerated from stub.go on every run).  close() returns early when the stub is not
+    started; collectSync takes the lock Start holds until it has set started, so a stub
+    that has collected anything is started. *)
+Section StubSessions.
+  Variables A B U : Type.
+  Variable handler : option (list A -> list B -> option (list U)).
+
+  Definition stub_close (resets : bool) (st : stub_state A B) : stub_state A B :=
+    {| ss_acc := if resets then None else ss_acc st; ss_calls := ss_calls st |}.
+
+  (* one connection: the Synchronize messages it carries, then close *)
+  Definition stub_session (resets : bool) (st : stub_state A B) (msgs : list (chunk A B)) : stub_state A B :=
+    stub_close resets (fst (peer_run (stub_sync handler) st msgs)).
+
+  (* the connections of one stub value, in order *)
+  Definition stub_sessions (resets : bool) (st : stub_state A B) (conns : list (list (chunk A B))) : stub_state A B :=
+    fold_left (stub_session resets) conns st.
+End StubSessions.
+
+Arguments stub_close {A B}. Arguments stub_session {A B U}. Arguments stub_sessions {A B U}.
 
 (* ------------------------------------------------------------------ *)
 (** * Activation bookkeeping of the adaptation
